@@ -1130,7 +1130,7 @@ theorem predictRegression_eq (chans : List (Chan α)) (centre : Nat → List α 
     simpa using this
   refine ⟨W[c], List.getElem?_eq_getElem hlt, ?_⟩
   unfold predictRegression
-  simp only [hs, hc, List.length_map]
+  simp only [hs, hc]
   generalize targets.map (normIdx chans.length) = tn
   have hcen : ∀ k : Int, (channelCentres chans centre W k.toNat)[c]? =
       some (centre k.toNat (slice (wlens chans) k.toNat W[c])) := by
@@ -1140,6 +1140,8 @@ theorem predictRegression_eq (chans : List (Chan α)) (centre : Nat → List α 
   · rename_i h1
     match tn, h1 with
     | [k], _ => simp [hcen]
+    | [], h => exact absurd h (by simp)
+    | _ :: _ :: _, h => exact absurd h (by simp)
   · have : (tn.map (fun k => channelCentres chans centre W k.toNat)).map (·[c]?) =
         (tn.map (fun k => centre k.toNat (slice (wlens chans) k.toNat W[c]))).map some := by
       rw [List.map_map, List.map_map]
@@ -1257,15 +1259,17 @@ theorem keptWidths_eq (skip : Nat → Bool) (k : Nat) (ws : List Nat) :
       simp only [Function.comp]
       rw [show k + Nat.succ j = k + 1 + j by omega]
     simp only [keptWidths, List.length_cons, List.range_succ_eq_map, List.filter_cons, Nat.add_zero, ih',
-      hshift, List.map_map]
+      hshift]
     cases skip k <;> simp [Function.comp]
 
 theorem zipIdx_map_lookup {γ δ : Type} (l : List Nat) (g : Nat → γ) (f : Nat → γ → δ) :
     l.zipIdx.map (fun ip => ((l.map g)[ip.2]?).map (f ip.1)) = (l.map (fun i => f i (g i))).map some := by
   apply List.ext_getElem?
   intro k
-  rw [zipIdx_map_getElem?, List.getElem?_map, List.getElem?_map, List.getElem?_map]
-  cases l[k]? <;> simp
+  rw [zipIdx_map_getElem?, List.getElem?_map, List.getElem?_map]
+  cases h : l[k]? with
+  | none => rfl
+  | some i => simp [List.getElem?_map, h]
 
 /-- **prepare / restore round trip for any set of skipped channels.**  `data` has one entry per
 channel.  If every kept module's `restore_data` inverts its `prepare_data` (C18) and prepared
